@@ -2,13 +2,14 @@
    Proved: isolation (what happens to one flow's packets cannot change another flow's sessions; TLS: C03_isolation, QUIC:
    C03_quic_isolation), totality of the reading phase for TCP, UDP/QUIC and everything else (C03_run_reading_total: no packet, however
    damaged or crafted, makes it fail), and, record by record, that a TLS session without usable keys or a record that does not
-   decrypt contributes nothing.  Truncation of the capture gives a prefix (C08_tls, C08_quic).  NOT proved: that no input
-   whatsoever makes the TLS decrypt phase after the reading phase raise, and the prefix claim for a packet lost in the middle:
+   decrypt contributes nothing; the replay of a TLS session's packets in the decrypt phase never raises either (C03_tls_replay_total).
+   Truncation of the capture gives a prefix (C08_tls, C08_quic).  NOT proved: that the builder and the writer never raise (they do
+   for 2^32 plaintext bytes in one direction), and the prefix claim for a packet lost in the middle:
    these are decided by the fault enumeration of the check, with byte-exact correspondence of the model including the crash
    outcomes (DESIGN.md, C03). *)
 From Coq Require Import ZArith List Bool.
 From Coq Require String.
-Require Import PyLib SuiteTypes SuiteParser Crypto KeySchedule Packet Reassembly Decryptor TlsSession Main C04P C03P QuicDemuxP QuicTotalP.
+Require Import PyLib SuiteTypes SuiteParser Crypto KeySchedule Packet Reassembly Decryptor TlsSession Main C04P C03P QuicDemuxP QuicTotalP TlsTotalP.
 Import ListNotations.
 Open Scope Z_scope.
 
@@ -73,3 +74,17 @@ Theorem C03_quic_isolation : forall C o ftable kl q p ss ss', respects q ss p ->
   handle_quic_packet C o ftable kl ss p = Ok ss' -> qproj q ss' = qproj q ss.
 Proof. exact quic_other_flow. Qed.
 Print Assumptions C03_quic_isolation.
+
+(* ---------------- TLS, the decrypt phase ---------------- *)
+(* Session.get_tls_records -- the replay of a session's buffered packets: reassembly, record framing, hello parsing, key
+   derivation, decryptor construction, decryption, bookkeeping -- never raises, whatever bytes the segments carry (pkt_ok: payload
+   bytes are bytes).  Every exception of the key derivation and of Decryptor.__init__ is caught where generate_keys is called, the
+   record handlers catch their own, and both framing loops terminate (every record header advances the index by at least 5). *)
+Theorem C03_tls_replay_total : forall C tbl parts keylog sip sport ps st,
+  st_ok st -> Forall pkt_ok ps -> exists st', get_tls_records C tbl parts keylog sip sport st ps = Ok st'.
+Proof. intros C tbl parts keylog sip sport ps st. exact (get_tls_records_total C tbl parts keylog sip sport ps st). Qed.
+Print Assumptions C03_tls_replay_total.
+
+Theorem C03_tls_record_total : forall C tbl parts keylog s r srv, exists x, handle_tls_record C tbl parts keylog s r srv = Ok x.
+Proof. exact tls_record_total. Qed.
+Print Assumptions C03_tls_record_total.
